@@ -27,7 +27,7 @@ var (
 	thorough = flag.Bool("thorough", false, "thorough tier")
 	harness  = flag.String("harness", "/verif/harness", "path of the verifharness module")
 	plugins  = flag.String("plugins", "curry,uncurry,flip,apply,tuple", "comma separated plugin list")
-	cfg      = flag.String("cfg", "0000000000000000", "model variant flags written into every op line: unnamedFixed shadowFixed crossFixed voidFixed prefixFixed universeFixed resultsFixed resultOuterFixed zeroFixed lhsFixed errTypeFixed errRecvFixed typedNilFixed localsFixed")
+	cfg      = flag.String("cfg", "00000000000000000", "model variant flags written into every op line: unnamedFixed shadowFixed crossFixed voidFixed prefixFixed universeFixed resultsFixed resultOuterFixed qualFixed zeroFixed lhsFixed errTypeFixed errRecvFixed typedNilFixed localsFixed")
 )
 
 func must(err error) {
@@ -267,6 +267,23 @@ func (g *gen) genC15() {
 		inner := g.params(naming([]string{"named", "blankall"}[i%2], 1+i%2))
 		g.add(&funcs.Class{Prop: "C15", Kind: "uncurry", Tag: "resultnames", Outer: g.params([]string{[]string{"z", "_"}[i%2]}), Inner: inner, Rs: rs, Rn: rn})
 	}
+	// a parameter named like the package that qualifies the type of a LATER parameter / of a result
+	for i, kind := range []string{"curry", "flip", "apply", "uncurrycurry", "curry", "apply"} {
+		n := 2 + i%2
+		ps := g.params(naming("named", n))
+		ps[0].Name = "unsafe"
+		rs := g.types(1+i%2, false)
+		if i < 4 {
+			ps[n-1].T = 18
+		} else {
+			rs[0] = 18
+		}
+		g.add(&funcs.Class{Prop: "C15", Kind: kind, Tag: "qualifier", Ps: ps, Rs: rs})
+	}
+	g.add(&funcs.Class{Prop: "C15", Kind: "uncurry", Tag: "qualifier", Outer: []funcs.Param{{Name: "unsafe", T: g.anyType()}},
+		Inner: []funcs.Param{{Name: "b", T: 18}}, Rs: g.types(1, false)})
+	g.add(&funcs.Class{Prop: "C15", Kind: "uncurry", Tag: "qualifier", Outer: []funcs.Param{{Name: "a", T: 18}},
+		Inner: []funcs.Param{{Name: "unsafe", T: g.anyType()}, {Name: "c", T: 18}}, Rs: g.types(1, false)})
 	// uncurry: an inner RESULT that bears the name of the outer parameter (two signatures merged into one)
 	for i, c := range []struct {
 		outer string
@@ -543,6 +560,7 @@ func (g *gen) genC16() {
 	for i, s := range []string{"universe", "universe2", "prefixuser"} {
 		g.add(&funcs.Class{Prop: "C16", Kind: "toerror", Tag: s, Ps: g.params(naming(s, 2+i%2)), Rs: g.types(1, false)})
 	}
+	g.add(&funcs.Class{Prop: "C16", Kind: "toerror", Tag: "qualifier", Ps: []funcs.Param{{Name: "unsafe", T: g.anyType()}, {Name: "p", T: 18}}, Rs: g.types(1, false)})
 	// ---- toerror given an error VALUE of an imported type
 	g.add(&funcs.Class{Prop: "C16", Kind: "toerror", Tag: "imported-error", Ps: g.params(naming("named", 2)), Rs: g.types(1, false),
 		ErrExpr: "geo.Err{Code: in[\"err\"][0]}", Import: "corpus/geo"})
@@ -560,8 +578,8 @@ func (g *gen) genC16() {
 
 func main() {
 	flag.Parse()
-	if len(*cfg) != 16 || strings.Trim(*cfg, "01") != "" {
-		must(fmt.Errorf("-cfg wants sixteen binary digits"))
+	if len(*cfg) != 17 || strings.Trim(*cfg, "01") != "" {
+		must(fmt.Errorf("-cfg wants seventeen binary digits"))
 	}
 	g := &gen{rng: rand.New(rand.NewSource(*seed)), stats: map[string]int{}}
 	want := map[string]bool{}
